@@ -32,7 +32,8 @@
 From stdpp Require Import gmap list.
 From Coq Require Import NArith.
 From RopeVerif.C10 Require Import FsModel Change.
-From RopeVerif.C11 Require Import History ExecProofs CommuteProofs HistoryProofs SelectiveProofs WitnessProofs.
+From RopeVerif.C12 Require Persist.
+From RopeVerif.C11 Require Import History ExecProofs CommuteProofs HistoryProofs SelectiveProofs DeepenProofs WitnessProofs.
 
 (* ---- the schedule-free view used in the statements is C10's run ---- *)
 Theorem C11_exec_is_run :
@@ -47,7 +48,7 @@ Print Assumptions C11_exec_is_run.
 
 (* ---- undo / redo with nothing to undo / redo is refused (HistoryError) and changes nothing ---- *)
 Theorem C11_empty_refused :
-  forall (bp : bool) (v : variant) (f : nat) (ign : list (list N)) (sel : option nat) (drp : bool) (s : hist) (k : sched),
+  forall (bp : bool) (v : variant) (f : nat) (ign : list N -> bool) (sel : option nat) (drp : bool) (s : hist) (k : sched),
     (h_undo s = [] -> hstep bp v f ign (OUndo sel drp) s k = SErr s k (E HistEmpty))
     /\ (h_redo s = [] -> hstep bp v f ign (ORedo sel) s k = SErr s k (E HistEmpty)).
 Proof. exact (fun bp v f ign sel drp s k => conj (empty_undo_refused bp v f ign sel drp s k) (empty_redo_refused bp v f ign sel s k)). Qed.
@@ -55,7 +56,7 @@ Print Assumptions C11_empty_refused.
 
 (* ---- a new change clears the redo list ---- *)
 Theorem C11_new_change_clears_redo :
-  forall (bp : bool) (v : variant) (f : nat) (ign : list (list N)) (c : change) (s : hist) (k : sched) (s' : hist) (k' : sched) deps,
+  forall (bp : bool) (v : variant) (f : nat) (ign : list N -> bool) (c : change) (s : hist) (k : sched) (s' : hist) (k' : sched) deps,
     hstep bp v f ign (ODo c) s k = SOk s' k' deps -> h_redo s' = [] /\ deps = [].
 Proof. exact new_change_clears_redo. Qed.
 Print Assumptions C11_new_change_clears_redo.
@@ -63,7 +64,7 @@ Print Assumptions C11_new_change_clears_redo.
 (* ---- the limit: |undo| + |redo| <= limit is kept by every operation, successful or not; hence after
    any session that starts within the limit (e.g. with empty lists) the undo list never exceeds it ---- *)
 Theorem C11_limit :
-  forall (bp : bool) (v : variant) (f : nat) (ign : list (list N)) (os : list op) (s : hist),
+  forall (bp : bool) (v : variant) (f : nat) (ign : list N -> bool) (os : list op) (s : hist),
     length (h_undo s) + length (h_redo s) <= h_limit s ->
     length (h_undo (hsteps bp v f ign os s)) + length (h_redo (hsteps bp v f ign os s)) <= h_limit s
     /\ h_limit (hsteps bp v f ign os s) = h_limit s.
@@ -78,7 +79,7 @@ Print Assumptions C11_limit.
 (* ---- undo after do restores exactly the tree and the undo list (minus the oldest entry when the limit
    was hit), redo = [the change] ---- *)
 Theorem C11_undo_do :
-  forall (bp : bool) (f : nat) (ign : list (list N)) (c : change) (s s1 : hist) (k1 : sched) deps,
+  forall (bp : bool) (f : nat) (ign : list N -> bool) (c : change) (s s1 : hist) (k1 : sched) deps,
     wf_fs (h_fs s) -> 0 < h_limit s ->
     hstep bp repaired f ign (ODo c) s quiet = SOk s1 k1 deps -> irrev k1 = false ->
     h_undo s1 <> h_undo s ->
@@ -91,7 +92,7 @@ Print Assumptions C11_undo_do.
 
 (* ---- redo after undo, and undo after redo, restore the whole state (tree and both lists) ---- *)
 Theorem C11_redo_undo :
-  forall (bp : bool) (f : nat) (ign : list (list N)) (s : hist),
+  forall (bp : bool) (f : nat) (ign : list N -> bool) (s : hist),
     Consistent f s -> h_undo s <> [] ->
     exists s1, hstep bp repaired f ign (OUndo None false) s quiet = SOk s1 quiet [length (h_undo s) - 1]
                /\ hstep bp repaired f ign (ORedo None) s1 quiet = SOk s quiet [length (h_redo s)].
@@ -99,7 +100,7 @@ Proof. exact redo_after_undo. Qed.
 Print Assumptions C11_redo_undo.
 
 Theorem C11_undo_redo :
-  forall (bp : bool) (f : nat) (ign : list (list N)) (s : hist),
+  forall (bp : bool) (f : nat) (ign : list N -> bool) (s : hist),
     Consistent f s -> h_redo s <> [] ->
     exists s1, hstep bp repaired f ign (ORedo None) s quiet = SOk s1 quiet [length (h_redo s) - 1]
                /\ hstep bp repaired f ign (OUndo None false) s1 quiet = SOk s quiet [length (h_undo s)].
@@ -108,7 +109,7 @@ Print Assumptions C11_undo_redo.
 
 (* ---- drop=True: the same tree and undo list as a plain undo, the redo list untouched ---- *)
 Theorem C11_drop :
-  forall (bp : bool) (f : nat) (ign : list (list N)) (s : hist),
+  forall (bp : bool) (f : nat) (ign : list N -> bool) (s : hist),
     Consistent f s -> h_undo s <> [] ->
     exists s1 s2,
       hstep bp repaired f ign (OUndo None false) s quiet = SOk s1 quiet [length (h_undo s) - 1]
@@ -130,7 +131,7 @@ Print Assumptions C11_commute.
    all performed leaves exactly reversible), a refused do changes nothing; kept by selective undo and redo
    (the two theorems below, which contain plain undo()/redo() as the case of the last position) ---- *)
 Theorem C11_inv_do :
-  forall (bp : bool) (f : nat) (ign : list (list N)) (c : change) (s s' : hist) (k' : sched) deps,
+  forall (bp : bool) (f : nat) (ign : list N -> bool) (c : change) (s s' : hist) (k' : sched) deps,
     Consistent f s -> interesting_in ign c = true ->
     hstep bp repaired f ign (ODo c) s quiet = SOk s' k' deps -> irrev k' = false ->
     Consistent f s'.
@@ -138,7 +139,7 @@ Proof. exact consistent_do_ok. Qed.
 Print Assumptions C11_inv_do.
 
 Theorem C11_do_refused :
-  forall (bp : bool) (f : nat) (ign : list (list N)) (c : change) (s s' : hist) (k' : sched) (x : err),
+  forall (bp : bool) (f : nat) (ign : list N -> bool) (c : change) (s s' : hist) (k' : sched) (x : err),
     wf_fs (h_fs s) ->
     hstep bp repaired f ign (ODo c) s quiet = SErr s' k' x -> irrev k' = false -> s' = s.
 Proof. exact consistent_do_refused. Qed.
@@ -149,7 +150,7 @@ Print Assumptions C11_do_refused.
    tree it leaves is the replay, from the SAME initial tree, of the changes that remain: "the tree equals
    the one obtained by never having made them".  The new state is Consistent (after drop: see below). ---- *)
 Theorem C11_selective_undo :
-  forall (f : nat) (ign : list (list N)) (s : hist) (i : nat) (drp : bool),
+  forall (f : nat) (ign : list N -> bool) (s : hist) (i : nat) (drp : bool),
     Consistent f s -> i < length (h_undo s) ->
     exists s' base,
       hstep true repaired f ign (OUndo (Some i) drp) s quiet = SOk s' quiet (find_deps true (h_undo s) i)
@@ -163,7 +164,7 @@ Proof. exact (fun f ign s i drp Hc => selective_undo true f ign s i drp Hc (or_i
 Print Assumptions C11_selective_undo.
 
 Theorem C11_selective_redo :
-  forall (f : nat) (ign : list (list N)) (s : hist) (i : nat),
+  forall (f : nat) (ign : list N -> bool) (s : hist) (i : nat),
     Consistent f s -> i < length (h_redo s) ->
     exists s',
       hstep true repaired f ign (ORedo (Some i)) s quiet = SOk s' quiet (find_deps true (h_redo s) i)
@@ -177,7 +178,7 @@ Print Assumptions C11_selective_redo.
 (* the same two statements for the dependency test as found before ed5101e (bp = false): they need coherent
    resource classes, see C11_class_blind_dependency_refuted *)
 Theorem C11_selective_undo_as_found :
-  forall (f : nat) (ign : list (list N)) (s : hist) (i : nat) (drp : bool),
+  forall (f : nat) (ign : list N -> bool) (s : hist) (i : nat) (drp : bool),
     Consistent f s -> cok (resources_list (h_undo s)) -> i < length (h_undo s) ->
     exists s' base,
       hstep false repaired f ign (OUndo (Some i) drp) s quiet = SOk s' quiet (find_deps false (h_undo s) i)
@@ -191,7 +192,7 @@ Proof. exact (fun f ign s i drp Hc Hk => selective_undo false f ign s i drp Hc (
 Print Assumptions C11_selective_undo_as_found.
 
 Theorem C11_selective_redo_as_found :
-  forall (f : nat) (ign : list (list N)) (s : hist) (i : nat),
+  forall (f : nat) (ign : list N -> bool) (s : hist) (i : nat),
     Consistent f s -> cok (resources_list (h_redo s)) -> i < length (h_redo s) ->
     exists s',
       hstep false repaired f ign (ORedo (Some i)) s quiet = SOk s' quiet (find_deps false (h_redo s) i)
@@ -230,7 +231,7 @@ Print Assumptions C11_closure_tight.
    non-ignored resource and performs only exactly reversible leaves, also when refused half-way; an undo
    does not drop) keeps Consistent - successful or refused, last or chosen change, listed or not ---- *)
 Theorem C11_inv :
-  forall (f : nat) (ign : list (list N)) (o : op) (s : hist),
+  forall (f : nat) (ign : list N -> bool) (o : op) (s : hist),
     Consistent f s ->
     step_ok ign o (hstep true repaired f ign o s quiet) ->
     Consistent f (sres_state (hstep true repaired f ign o s quiet)).
@@ -238,13 +239,114 @@ Proof. exact (fun f ign o s Hc => consistent_step true f ign o s Hc (or_introl e
 Print Assumptions C11_inv.
 
 Theorem C11_inv_as_found :
-  forall (f : nat) (ign : list (list N)) (o : op) (s : hist),
+  forall (f : nat) (ign : list N -> bool) (o : op) (s : hist),
     Consistent f s ->
     cok (resources_list (h_undo s)) /\ cok (resources_list (h_redo s)) ->
     step_ok ign o (hstep false repaired f ign o s quiet) ->
     Consistent f (sres_state (hstep false repaired f ign o s quiet)).
 Proof. exact (fun f ign o s Hc Hk => consistent_step false f ign o s Hc (or_intror Hk)). Qed.
 Print Assumptions C11_inv_as_found.
+
+(* ---- well-behaved sessions: a condition WITHOUT the ghost flag.  [step_wb]: a do touches a non-ignored
+   resource and, from the tree at that moment, either succeeds with every leaf exactly reversible (decided by
+   the schedule-free [exec]) or is refused and is built from fresh edits and creations (C10's static_ok); no
+   undo drops.  Every state such a session reaches from a Consistent state is Consistent. ---- *)
+Theorem C11_well_behaved_reachable :
+  forall (f : nat) (ign : list N -> bool) (os : list op) (s : hist),
+    Consistent f s -> well_behaved_session true f ign os s = true ->
+    Consistent f (hsteps true repaired f ign os s).
+Proof. exact well_behaved_reachable. Qed.
+Print Assumptions C11_well_behaved_reachable.
+
+(* the purely syntactic sub-class (no tree is looked at): sessions whose performed changes are nested sets of
+   edits with unrecorded old contents and creations, touching a non-ignored resource, and no drop *)
+Theorem C11_static_reachable :
+  forall (f : nat) (ign : list N -> bool) (os : list op) (s : hist),
+    Consistent f s -> static_session ign os = true -> Consistent f (hsteps true repaired f ign os s).
+Proof. exact static_reachable. Qed.
+Print Assumptions C11_static_reachable.
+
+(* hypothesis-free corollaries for a project that starts with an empty history on a well-formed tree *)
+Theorem C11_well_behaved_selective_undo :
+  forall (f : nat) (ign : list N -> bool) (os : list op) (m : fs) (lim i : nat) (drp : bool),
+    wf_fs m ->
+    well_behaved_session true f ign os (Hist m [] [] lim) = true ->
+    let s := hsteps true repaired f ign os (Hist m [] [] lim) in
+    i < length (h_undo s) ->
+    exists s' base,
+      hstep true repaired f ign (OUndo (Some i) drp) s quiet = SOk s' quiet (find_deps true (h_undo s) i)
+      /\ h_undo s' = part false (marks true (h_undo s) i) (h_undo s)
+      /\ h_redo s' = (if drp then h_redo s else h_redo s ++ rev (part true (marks true (h_undo s) i) (h_undo s)))
+      /\ wf_fs base /\ replay f base (h_undo s) (h_fs s) /\ replay f base (h_undo s') (h_fs s')
+      /\ (drp = false -> Consistent f s').
+Proof. exact well_behaved_selective_undo. Qed.
+Print Assumptions C11_well_behaved_selective_undo.
+
+Theorem C11_well_behaved_selective_redo :
+  forall (f : nat) (ign : list N -> bool) (os : list op) (m : fs) (lim i : nat),
+    wf_fs m ->
+    well_behaved_session true f ign os (Hist m [] [] lim) = true ->
+    let s := hsteps true repaired f ign os (Hist m [] [] lim) in
+    i < length (h_redo s) ->
+    exists s',
+      hstep true repaired f ign (ORedo (Some i)) s quiet = SOk s' quiet (find_deps true (h_redo s) i)
+      /\ h_redo s' = part false (marks true (h_redo s) i) (h_redo s)
+      /\ h_undo s' = h_undo s ++ rev (part true (marks true (h_redo s) i) (h_redo s))
+      /\ Consistent f s'.
+Proof. exact well_behaved_selective_redo. Qed.
+Print Assumptions C11_well_behaved_selective_redo.
+
+(* ---- stale redo entries.  An entry of the redo list is stale when the list can no longer be redone LIFO
+   with every step succeeding and exactly reversible (boolean: consistentRb).  Without drop=True no stale
+   entry can arise; and a drop is harmless exactly when the shape of the finding is absent: the dropped
+   changes are apart from every redo entry. ---- *)
+Theorem C11_no_stale_without_drop :
+  forall (f : nat) (ign : list N -> bool) (os : list op) (s : hist),
+    Consistent f s -> well_behaved_session true f ign os s = true ->
+    exists top, chain f Do (rev (h_redo (hsteps true repaired f ign os s)))
+                      (h_fs (hsteps true repaired f ign os s)) top.
+Proof. exact no_stale_without_drop. Qed.
+Print Assumptions C11_no_stale_without_drop.
+
+Theorem C11_drop_safe :
+  forall (f : nat) (ign : list N -> bool) (s : hist) (i : nat),
+    Consistent f s -> i < length (h_undo s) ->
+    (forall y z, In y (part true (marks true (h_undo s) i) (h_undo s)) -> In z (h_redo s) ->
+                 apart (roots y) (roots z)) ->
+    Consistent f (sres_state (hstep true repaired f ign (OUndo (Some i) true) s quiet)).
+Proof. exact drop_safe. Qed.
+Print Assumptions C11_drop_safe.
+
+(* ---- lowering max_history_items between two operations ([set_limit]) trims nothing and keeps Consistent;
+   the undo list may exceed the new limit (C11_limit_lowered_example) until the next recorded do, which
+   re-establishes |undo| + |redo| <= limit whatever the lists were ---- *)
+Theorem C11_limit_restored_by_do :
+  forall (bp : bool) (v : variant) (f : nat) (ign : list N -> bool) (c : change) (s : hist) (k : sched)
+         (s' : hist) (k' : sched) deps,
+    hstep bp v f ign (ODo c) s k = SOk s' k' deps -> h_undo s' <> h_undo s ->
+    length (h_undo s') + length (h_redo s') <= h_limit s' /\ h_limit s' = h_limit s.
+Proof. exact limit_restored_by_do. Qed.
+Print Assumptions C11_limit_restored_by_do.
+
+(* ---- closing and reopening the project (C12's model of History.write / _load_history): what is reloaded
+   is the image of the same redo list and of the undo list trimmed to the limit, and that state is
+   Consistent when the state before was - so every theorem above holds after a reopen as before it.
+   ([emb sp] is the change as C12's persistence model sees it, sp renders a path.) ---- *)
+Theorem C11_reopen :
+  forall (f : nat) (sp : list N -> list N) (lim : nat) (s : hist),
+    RopeVerif.C12.Persist.reopen true (RopeVerif.C12.Persist.close true lim (emb_hist sp s))
+    = Some (emb_hist sp (Hist (h_fs s) (trim lim (h_undo s)) (h_redo s) (h_limit s)))
+    /\ (Consistent f s -> Consistent f (Hist (h_fs s) (trim lim (h_undo s)) (h_redo s) (h_limit s))).
+Proof. exact (fun f sp lim s => conj (reopen_bridge sp lim s) (reopen_consistent f lim s)). Qed.
+Print Assumptions C11_reopen.
+
+(* ---- Project.is_ignored on the default kind of patterns (no slash): whatever lies below an ignored resource
+   is ignored ---- *)
+Theorem C11_ignored_below :
+  forall (tbl : list (N * list N)) (pats : list (list N)) (p r : list N),
+    ignored_by tbl pats p = true -> ignored_by tbl pats (p ++ r) = true.
+Proof. exact ignored_below. Qed.
+Print Assumptions C11_ignored_below.
 
 (* ---- the boolean predicates the harness evaluates on every case imply the hypotheses above ---- *)
 Theorem C11_domain_check_sound :
@@ -274,7 +376,7 @@ Print Assumptions C11_remove_not_undoable_refuted.
 Theorem C11_class_blind_dependency_refuted :
   exists s s' k' deps,
     Consistent 6 s /\ class_ok (resources_list (h_undo s)) = false
-    /\ hstep false repaired 6 [] (OUndo (Some 0) false) s quiet = SOk s' k' deps
+    /\ hstep false repaired 6 (fun _ => false) (OUndo (Some 0) false) s quiet = SOk s' k' deps
     /\ deps = [0] /\ h_fs s' !! paa = Some (File cA) /\ consistentb 6 s' = false.
 Proof. exact class_blind_dependency_refuted. Qed.
 Print Assumptions C11_class_blind_dependency_refuted.
@@ -283,7 +385,7 @@ Print Assumptions C11_class_blind_dependency_refuted.
    creation is taken along, the file is back in place, the state is Consistent *)
 Example C11_class_blind_dependency_repaired_example :
   exists s' k' deps,
-    hstep true repaired 6 [] (OUndo (Some 0) false) w_alias quiet = SOk s' k' deps
+    hstep true repaired 6 (fun _ => false) (OUndo (Some 0) false) w_alias quiet = SOk s' k' deps
     /\ deps = [0; 1] /\ h_fs s' !! pa = Some (File cA) /\ consistentb 6 s' = true.
 Proof. exact class_blind_dependency_repaired. Qed.
 Print Assumptions C11_class_blind_dependency_repaired_example.
@@ -305,9 +407,9 @@ Print Assumptions C11_move_overwrite_refuted.
 Theorem C11_drop_stale_redo_refuted :
   exists s1 k1 d1 s2 k2 d2,
     Consistent 6 w_drop
-    /\ hstep true repaired 6 [] (OUndo None true) w_drop quiet = SOk s1 k1 d1
+    /\ hstep true repaired 6 (fun _ => false) (OUndo None true) w_drop quiet = SOk s1 k1 d1
     /\ consistentUb 6 s1 = true /\ consistentRb 6 s1 = false
-    /\ hstep true repaired 6 [] (ORedo None) s1 quiet = SOk s2 k2 d2
+    /\ hstep true repaired 6 (fun _ => false) (ORedo None) s1 quiet = SOk s2 k2 d2
     /\ irrev k2 = true
     /\ h_fs s2 !! pa = Some (File cA) /\ h_fs s2 !! pda = Some (File cC).
 Proof. exact drop_stale_redo_refuted. Qed.
@@ -334,14 +436,14 @@ Print Assumptions C11_selective_redo_example.
 Example C11_undo_do_example :
   exists s1 k1 deps,
     wf_fs (h_fs w_hist) /\ 0 < h_limit w_hist
-    /\ hstep true repaired 6 [] (ODo (CS 5 [MV pa [6%N; 1%N] false; CC [6%N; 1%N] cB None])) w_hist quiet = SOk s1 k1 deps
+    /\ hstep true repaired 6 (fun _ => false) (ODo (CS 5 [MV pa [6%N; 1%N] false; CC [6%N; 1%N] cB None])) w_hist quiet = SOk s1 k1 deps
     /\ irrev k1 = false /\ h_undo s1 <> h_undo w_hist.
 Proof. exact undo_after_do_example. Qed.
 Print Assumptions C11_undo_do_example.
 
 Example C11_limit_example :
   (length (h_undo (st w_tree 2)) + length (h_redo (st w_tree 2)) <= h_limit (st w_tree 2))
-  /\ length (h_undo (hsteps true repaired 6 [] w_ops (st w_tree 2))) = 2.
+  /\ length (h_undo (hsteps true repaired 6 (fun _ => false) w_ops (st w_tree 2))) = 2.
 Proof. exact limit_example. Qed.
 Print Assumptions C11_limit_example.
 
@@ -351,3 +453,41 @@ Example C11_commute_example :
     /\ apart (roots (CS 1 [CC pa cC (Some cA)])) (roots (CS 2 [MV pd pe true])).
 Proof. exact swap_example. Qed.
 Print Assumptions C11_commute_example.
+
+Example C11_well_behaved_example :
+  wf_fs (list_to_map w_tree) /\ well_behaved_session true 6 no_ign w_session (st w_tree 100) = true
+  /\ static_session no_ign w_session = false
+  /\ length (h_undo (hsteps true repaired 6 no_ign w_session (st w_tree 100))) = 3
+  /\ length (h_redo (hsteps true repaired 6 no_ign w_session (st w_tree 100))) = 1.
+Proof. exact well_behaved_example. Qed.
+Print Assumptions C11_well_behaved_example.
+
+Example C11_static_example :
+  static_session no_ign w_static = true
+  /\ length (h_undo (hsteps true repaired 6 no_ign w_static (st w_tree 100))) = 2
+  /\ h_fs (hsteps true repaired 6 no_ign w_static (st w_tree 100)) !! pdb = Some (File cD).
+Proof. exact static_example. Qed.
+Print Assumptions C11_static_example.
+
+Example C11_drop_safe_example :
+  Consistent 6 w_dropok /\ 0 < length (h_undo w_dropok)
+  /\ (forall y z, In y (part true (marks true (h_undo w_dropok) 0) (h_undo w_dropok)) -> In z (h_redo w_dropok) ->
+                  apart (roots y) (roots z))
+  /\ length (h_redo w_dropok) = 1.
+Proof. exact drop_safe_example. Qed.
+Print Assumptions C11_drop_safe_example.
+
+Example C11_limit_lowered_example :
+  length (h_undo (set_limit 1 w_hist)) = 4 /\ h_limit (set_limit 1 w_hist) = 1
+  /\ exists s' k' deps,
+       hstep true repaired 6 no_ign (ODo (CS 9 [CC pa cD None])) (set_limit 1 w_hist) quiet = SOk s' k' deps
+       /\ length (h_undo s') = 1.
+Proof. exact limit_lowered_example. Qed.
+Print Assumptions C11_limit_lowered_example.
+
+Example C11_ignored_example :
+  ignored_by w_tbl w_pats [2%N] = true /\ ignored_by w_tbl w_pats [4%N; 3%N; 1%N] = true
+  /\ ignored_by w_tbl w_pats [5%N] = true /\ ignored_by w_tbl w_pats [1%N] = false
+  /\ ignored_by w_tbl w_pats [4%N; 1%N] = false.
+Proof. exact ignored_example. Qed.
+Print Assumptions C11_ignored_example.
